@@ -50,6 +50,7 @@ def boot():
 # first event, so the overhead is confined to the anchored functions.
 # ---------------------------------------------------------------------------------------
 _anchor_counts = {}
+_lib_functions = set()
 _all_counts = {}
 _anchor_names = set()
 _TOOL = None
@@ -78,6 +79,7 @@ def watch_anchors(names):
         fn = code.co_filename
         if not fn.startswith(prefix):
             return mon.DISABLE
+        _lib_functions.add((fn, code.co_firstlineno))         # every library function entered at least once (whatever its name)
         key = os.path.splitext(os.path.basename(fn))[0] + "." + code.co_name
         if funcmap:
             # development mode (tools/automutate.py): count every function of the library that the workload reaches
@@ -105,3 +107,7 @@ def anchor_counts():
 
 def all_counts():
     return dict(_all_counts)
+
+
+def lib_functions_entered():
+    return len(_lib_functions)
